@@ -68,7 +68,7 @@ func parseOutcome(p *jmespath.Parser, e string) string {
 
 func c13(r *mon.Run) {
 	r.Rule = "search histories: for each seeded expression (all fragments, weighted towards functions fed with literals and raw strings; plus the literal-fed function matrix) one compiled expression answers a history of 8-40 calls mixing documents on which it succeeds, documents on which it fails, and repetitions of earlier documents (every document a fresh deep copy); every response must equal (up to allowed member order) the response of a freshly compiled expression and of the one-shot Search for the same document, and the compiled AST (hook) must be unchanged after every call. " +
-		"struct-document histories: 114 navigational expressions, each compiled once and run over 6-25 Go-struct documents of the embedding family (same types with nil and non-nil embedded pointers in changing order, as roots, in typed slices, in maps), every answer compared with a fresh compile and the one-shot Search on an identical document. parser histories: one Parser parses sequences of 5-50 valid, ungrammatical and unlexable expressions interleaved; each result (AST, or error type, text, offset and expression) must equal that of a fresh Parser; plus histories of 1500 parses dominated by one failing expression. Non-trivial = distinct histories containing a failing call followed by a succeeding one and a repeated document; parser histories containing a failure followed by a success."
+		"struct-document histories: 114 navigational expressions, each compiled once and run over 6-25 Go-struct documents of the embedding family (same types with nil and non-nil embedded pointers in changing order, as roots, in typed slices, in maps), every answer compared with a fresh compile and the one-shot Search on an identical document. long search histories: 3000 calls on one compiled expression over 6 documents. parser histories: one Parser parses sequences of 5-50 valid, ungrammatical and unlexable expressions interleaved; each result (AST, or error type, text, offset and expression) must equal that of a fresh Parser; plus histories of 1500 parses dominated by one failing expression. Non-trivial = distinct histories containing a failing call followed by a succeeding one and a repeated document; parser histories containing a failure followed by a success."
 	r.Floor = 200
 	r.Assumptions = []string{"documents handed to the three call paths are separate deep copies, so document mutation (C06) cannot masquerade as history dependence"}
 	base := c06BaseDoc()
@@ -334,5 +334,41 @@ func c13(r *mon.Run) {
 				t.Count("struct-document histories with a null/error answer followed by a value")
 			}
 		}}
-	r.Exec(hist, ph, lph, sh)
+	// long search histories: 3000 calls on one compiled expression over 6 documents (a counter that wraps, a
+	// buffer that grows, a limit that is hit, "every n-th call"): every answer equals the first answer for
+	// that document, which is checked against a fresh compile
+	nlh := tierPick(r, 60, 1200)
+	lsh := mon.Workload{Name: "long-search-histories", N: nlh, Batch: 2,
+		Do: func(i int, t *mon.Tally) {
+			rng := gen.DeriveN(r.Seed, "c13long", i)
+			tree := fixed[(i*13)%len(fixed)]
+			expr := gen.Spell(tree)
+			jp, co := apiCompile(expr)
+			if co.Panicked || co.Err != nil {
+				r.Inconclusive("C13 workload expression does not compile: " + expr)
+				return
+			}
+			pool := []interface{}{base, perturb(rng, base), perturb(rng, base), docs.NewRand(rng).TypedDoc(0), nil, []interface{}{}}
+			first := make([]mon.Observed, len(pool))
+			res := make([]ref.Result, len(pool))
+			for d := range pool {
+				res[d] = ref.RefSet(tree, pool[d], gen.Quirks{})
+				first[d] = apiCompiledSearch(expr, mon.DeepCopy(pool[d]))
+			}
+			calls := 3000
+			for k := 0; k < calls; k++ {
+				d := (k*7 + k/11) % len(pool)
+				t.Eval()
+				o := apiJP(jp, mon.DeepCopy(pool[d]))
+				if !agree(res[d], o, first[d]) {
+					r.Violate(&mon.Violation{Workload: "long-search-histories", Index: i, API: "(*JMESPath).Search", Expr: expr, Doc: pool[d],
+						Expected: fmt.Sprintf("call %d of %d on one compiled expression answers like a freshly compiled one: %s", k+1, calls, first[d].String()), Observed: o.String(),
+						Class: "long history: reused compiled expression differs from a fresh one"})
+					return
+				}
+			}
+			t.Count("long histories (3000 calls)")
+			t.Nontrivial("lh:" + expr)
+		}}
+	r.Exec(hist, ph, lph, sh, lsh)
 }
